@@ -1591,8 +1591,12 @@ class H2Connection:
         Receive a headers frame on the connection.
         """
         # If necessary, check we can open the stream. Also validate that the
-        # stream ID is valid.
-        if frame.stream_id not in self.streams:
+        # stream ID is valid. Only a frame that would open a new stream counts
+        # against the limit: frames for streams that are already closed are
+        # dealt with according to how those streams were closed.
+        if (frame.stream_id not in self.streams and
+                not self._stream_id_is_outbound(frame.stream_id) and
+                frame.stream_id > self.highest_inbound_stream_id):
             max_open_streams = self.local_settings.max_concurrent_streams
             if (self.open_inbound_streams + 1) > max_open_streams:
                 raise TooManyStreamsError(
